@@ -22,10 +22,14 @@ pub fn read_input_file_and_xsd_files_at_path(current_file: &Path) -> WriterResul
     let xml = std::fs::read_to_string(current_file)?;
     let mut files = Files::new(file_name, xml);
 
-    for entry in current_file.parent().ok_or(WriterError::PathNotFound)?.read_dir()? {
+    // the parent of a bare file name is the empty path, which means the current directory
+    let parent = current_file.parent().ok_or(WriterError::PathNotFound)?;
+    let parent = if parent.as_os_str().is_empty() { Path::new(".") } else { parent };
+
+    for entry in parent.read_dir()? {
         let entry = entry?;
         let path = entry.path();
-        if path.is_file() && path.extension().unwrap_or_default() == "xsd" && !current_file.eq(&path) {
+        if path.is_file() && path.extension().unwrap_or_default() == "xsd" && path.file_name() != current_file.file_name() {
             let file_name = path
                 .file_name()
                 .ok_or(WriterError::PathNotFound)?
